@@ -1,5 +1,6 @@
 import Revm.Proofs.EvmInstLifeTop
 import Revm.Proofs.EvmInstSdWitness
+import Revm.Proofs.EvmInstWrapTop
 /-! C01Inst — the whole-transaction model `Revm.Model.Evm.transact` (C01) IS AN INSTANCE of the abstract machines about
 which C28–C31 are proved, so those properties hold of `Evm.transact` runs.
 
@@ -190,6 +191,114 @@ example : EvmOps ([{ env := sampleEnv, spec := 17, fuel := 10 }, { env := sample
   rcases hop with rfl | rfl
   · exact ⟨17, rfl⟩
   · exact ⟨7, rfl⟩
+
+/-! ## 2. C28 — observing inspectors (`Proofs/EvmInstWrap*.lean`)
+
+`evmMachine C cfg lim : InspectorWrap.Machine (evmTy κ) ECtx` is the frame machine of C28 filled with the concrete
+functions: `fetch` / `table` = the opcode byte and `Interp.execInstr (Interp.decode op)` with its host question answered
+by `EvmHost.answer` (the abstract interpreter keeps the whole concrete one; `ip`, `gas`, `mem` mirror `pc`, `gas`, `mem`),
+`call` / `create` = `makeCallFrame` / `makeCreateFrame`, `*Return` = `callReturn` / `createReturn`, `insert*Outcome` =
+`Interp.insertCallOutcome` / `Interp.insertCreateOutcome` on the parent, `lastFrameReturn` = the mainnet handler;
+a Rust panic / fatal error inside an instruction is `FatalExternalError` + the context's error slot (`takeError`).
+`transactInspected obs wst` is `Evm.transact` whose execution part (first frame, `run_the_loop`, `last_frame_return`) is
+run by `wrap (evmOps lim) obs (evmMachine journalOps cfg lim)` — wrapped EXACTLY as `Model/InspectorWrap.lean` wraps.
+
+Where abstract and concrete model do not line up (reported; none changes a completed run):
+* a frame ended by a failed `push!` inside `insert_*_outcome` (`Next.ended`): the concrete model carries the halting
+  `out`, the abstract `run` answers `Return { output: [] }`; equal because such an insertion halts with `out = []` and a
+  result other than `Continue` (`insertBy_halt`);
+* `free_context` is partial in the concrete model (`freeCtx` panics), total in the abstract one (`freeContextT`);
+* `ChildResult` has no `gas.limit`; `CallOutcome` has no address; abstract `call` does not see the shared memory and the
+  abstract `insertCreateOutcome` has no memory argument (the concrete ones do not use them: `makeCallFrame_mem`,
+  `insertCreate_mem`);
+* every halt sets `next_action = Return` in the instance (Rust leaves `None` for plain halts; `run` builds the same
+  result); Rust panics surface as `Res.err (.panic _)`, not `Res.panic`;
+* `last_frame_return` is inside `Machine.exec` but inside `finalGas` in the concrete model (`lastFrameGas`);
+* `eofcreate*` fail (legacy-only concrete model);
+* the abstract driver's fuel is nested (`loop n` runs `runInterp n`), the concrete one counts instructions: completed
+  concrete runs are abstract runs on every LARGE ENOUGH fuel (`evm_exec_is_machine_exec`), not on equal fuel. -/
+
+section Wrap
+open Revm.Model.InspectorWrap (Machine FrameResult Observer WState ORel Observing Respects wrap)
+open Revm.Proofs.EvmInstWrap (evmTy ECtx evmMachine evmOps transactInspected transactAbs execResult firstInputOf isErr)
+
+/-- "error outcomes return no gas", ON THE CONCRETE CONSUMERS: `Interp.insertCallOutcome`, `Interp.insertCreateOutcome`
+and `last_frame_return` (`lastFrameGas`, hence `Evm.finalGas`) never read the remaining / refunded gas of an
+error-class outcome (neither `return_ok!` nor `return_revert!`) -/
+theorem evm_consumers_blind (o : Interp.ChildResult) (g : Nat) (r : Int) (h : isErr o.result = true) :
+    (∀ rs re, Interp.insertCallOutcome rs re { o with gasRemaining := g, gasRefunded := r } =
+      Interp.insertCallOutcome rs re o) ∧
+    Interp.insertCreateOutcome { o with gasRemaining := g, gasRefunded := r } = Interp.insertCreateOutcome o ∧
+    (∀ e, Proofs.EvmInst.lastFrameGas e { o with gasRemaining := g, gasRefunded := r } =
+      Proofs.EvmInst.lastFrameGas e o) ∧
+    (∀ e spec floorGas refund, Evm.finalGas e spec floorGas refund { o with gasRemaining := g, gasRefunded := r } =
+      Evm.finalGas e spec floorGas refund o) :=
+  ⟨fun rs re => Revm.Proofs.EvmInstWrap.insert_call_outcome_blind_concrete rs re o g r h,
+   Revm.Proofs.EvmInstWrap.insert_create_outcome_blind_concrete o g r h,
+   fun e => Revm.Proofs.EvmInstWrap.last_frame_gas_blind_concrete e o g r h,
+   fun e spec fl rf => Revm.Proofs.EvmInstWrap.final_gas_blind_concrete e spec fl rf o g r h⟩
+
+/-- hence the frame machine of the whole-EVM model `Respects` the relation up to which `GasInspector` and the tracer
+are observing (C28's condition on the handlers), for every subroutine discipline -/
+theorem evm_machine_respects {κ : Type} (C : CpOps κ) (cfg : Cfg) (lim : Nat) :
+    Respects (evmMachine C cfg lim) ORel.errGas :=
+  Revm.Proofs.EvmInstWrap.evmMachine_respects C cfg lim
+
+/-- C28 INSTANCE, the frame machine: first frame + `run_the_loop` + `last_frame_return` of the whole-EVM model, over ANY
+subroutine discipline, IS `Machine.exec` of `evmMachine` — every completed concrete run is the abstract run, with the
+same `FrameResult` and world, on every large enough fuel -/
+theorem evm_exec_is_machine_exec {κ : Type} (C : CpOps κ) (cfg : Cfg) (e : Env) (gl : Nat) (w0 w1 : World)
+    (first : FrameOrResult κ) (hfirst : Proofs.EvmInst.firstFrame C cfg e gl w0 = .ok (first, w1)) (fuel : Nat)
+    (res : Interp.ChildResult) (w' : World) (hrun : runFirst C cfg fuel first w1 = .ok (res, w')) :
+    ∃ N, ∀ N', N ≤ N' →
+      (evmMachine C cfg e.tx.gasLimit).exec N' (firstInputOf e gl) { w := w0, err := none } =
+        some (.ok (execResult e res, { w := w', err := none })) :=
+  Revm.Proofs.EvmInstWrap.evm_exec_sim C cfg e gl w0 w1 first hfirst fuel res w' hrun
+
+/-- every completed `Evm.transact` run is a run of the transaction over the abstract frame machine -/
+theorem evm_transact_is_machine_transact (fuel : Nat) (w : World) (e : Env) (spec : Nat) (o : Outcome) (w' : World)
+    (h : transact fuel w e spec = .ok (o, w')) :
+    ∃ N, ∀ N', N ≤ N' → transactAbs N' w e spec = some (.ok (o, w')) :=
+  Revm.Proofs.EvmInstWrap.transactAbs_of_transact fuel w e spec o w' h
+
+/-- C28 on the machine of the whole-EVM model, EVERY fuel / world / environment / spec / leftover wrapper state (also
+runs that fail or run out of fuel): the transaction inspected by `NoOpInspector`, `GasInspector`, `TracerEip3155` is the
+transaction on the plain machine -/
+theorem evm_three_inspectors_invisible (fuel : Nat) (w : World) (e : Env) (spec : Nat) :
+    (∀ wst, transactInspected (fun _ => InspectorWrap.noop (evmTy Journal.Checkpoint)) wst fuel w e spec =
+      transactAbs fuel w e spec) ∧
+    (∀ wst, transactInspected (fun _ => InspectorWrap.gasInspector (evmTy Journal.Checkpoint)) wst fuel w e spec =
+      transactAbs fuel w e spec) ∧
+    (∀ wst, transactInspected (fun lim => InspectorWrap.tracer3155 (evmTy Journal.Checkpoint) (evmOps lim)) wst fuel w e
+      spec = transactAbs fuel w e spec) :=
+  Revm.Proofs.EvmInstWrap.three_inspectors_invisible_evm fuel w e spec
+
+/-- C28 FOR `Evm.transact`: whenever the whole-EVM model completes a transaction with `(o, w')` (result, gas, logs,
+state), the same transaction with the inspector register installed — `NoOpInspector`, `GasInspector` or
+`TracerEip3155`, from ANY wrapper state (inspector state, leftover input stacks) — completes with the same `(o, w')`,
+on every large enough fuel -/
+theorem evm_inspected_eq_plain (fuel : Nat) (w : World) (e : Env) (spec : Nat) (o : Outcome) (w' : World)
+    (h : transact fuel w e spec = .ok (o, w')) :
+    ∃ N, ∀ N', N ≤ N' →
+      (∀ wst, transactInspected (fun _ => InspectorWrap.noop (evmTy Journal.Checkpoint)) wst N' w e spec =
+        some (.ok (o, w'))) ∧
+      (∀ wst, transactInspected (fun _ => InspectorWrap.gasInspector (evmTy Journal.Checkpoint)) wst N' w e spec =
+        some (.ok (o, w'))) ∧
+      (∀ wst, transactInspected (fun lim => InspectorWrap.tracer3155 (evmTy Journal.Checkpoint) (evmOps lim)) wst N' w e
+        spec = some (.ok (o, w'))) :=
+  Revm.Proofs.EvmInstWrap.evm_inspected_eq_plain fuel w e spec o w' h
+
+/-- non-vacuity: a transaction that runs a contract (`PUSH1 1 PUSH1 2 ADD STOP`) completes on the concrete model, and
+the run inspected by the tracer from empty input stacks completes on the same fuel with the same gas -/
+example : ∃ r, transact 10 Revm.Proofs.EvmInstWrap.exWorld Revm.Proofs.EvmInstWrap.exEnv 17 = .ok r :=
+  Proofs.Evm.exists_of_isOk (by decide +kernel)
+example : Revm.Proofs.EvmInstWrap.exCheck
+    (transactInspected (fun lim => InspectorWrap.tracer3155 (evmTy Journal.Checkpoint) (evmOps lim))
+      { obs := InspectorWrap.Tracer.new, callStack := [], createStack := [], eofStack := [] } 10
+      Revm.Proofs.EvmInstWrap.exWorld Revm.Proofs.EvmInstWrap.exEnv 17) = true := by decide +kernel
+example : isErr Interp.IResult.OutOfGas = true := by decide
+
+end Wrap
 
 /-! ## 3. C29 / C30 — inspector hooks and SELFDESTRUCT notifications (`Proofs/EvmInstHooks*.lean`, `EvmInstSd*.lean`)
 
